@@ -501,7 +501,10 @@ class Gen(object):
         r = rng.random()
         if rng.random() < self.cfg.get("p_huge", 0.0):
             # longer than the usual I/O buffer sizes (8 KiB is about 900 samples, 64 KiB about 7 000)
-            n = rng.choice([rng.randint(800, 1000), rng.randint(6500, 7500), rng.randint(13000, 14500), rng.randint(2000, 20000)])
+            n = rng.choice([rng.randint(800, 1000), rng.randint(6500, 7500), rng.randint(13000, 14500), rng.randint(2000, 20000),
+                            rng.randint(9990, 10010)])
+            if rng.random() < 0.012:
+                n = rng.randint(100001, 104000)      # beyond the next power of ten as well (costs about a second per round trip)
         elif r < 0.12:
             n = 1
         elif r < 0.2:
@@ -560,11 +563,11 @@ class Gen(object):
         rng = self.rng
         if op["op"] == "save":
             if rng.random() < self.cfg["fault_rate"]:
-                k = rng.choice(["K6", "K7", "K8", "K12"])
+                k = rng.choice(["K6", "K7", "K8", "K12", "K13"])
                 fl = {"kind": k}
                 if k == "K6":
                     fl["errno"] = rng.choice(["EACCES", "ENOSPC", "EMFILE"])
-                if k in ("K7", "K12"):
+                if k in ("K7", "K12", "K13"):
                     fl["frac"] = rng.choice([0.0, 0.1, 0.5, 0.9, 0.999])
                 op["fault"] = fl
             return
